@@ -1,5 +1,6 @@
 """C18 - names propagate by fixed rules: math drops them, structure keeps them."""
 import random
+from datetime import date, datetime
 import re
 
 from ..bind import Vector, Table
@@ -523,8 +524,60 @@ def run_equal_label_rename(chk, spec):
 				chk.fail("outputs are named <sanitised column>_<function>", f"names/{op}/output-names/equal-label-rename/{how}", f"{spec!r}: after renaming {old!r} to {new!r} the sum is named {got!r}, rule gives {base + '_sum'!r}")
 				return
 
+def run_more_name_rules(chk, spec):
+	"""(a) labels with letters whose case fold is ASCII (ß, ſ, the fi ligature) are sanitised as the documented rule says - lower-case, every run of other characters one
+	underscore - in the output names of aggregate / window; (b) a selection t[:, name] is a result of its own: renaming it leaves the source's names alone; (c) a string key
+	in a non-exact spelling means the column the table would give for it NOW, also right after an earlier column was renamed through its vector; (d) fillna keeps the name,
+	also when the fill value widens the kind"""
+	import warnings
+	what = spec["what"]
+	chk.judged("chain", ("more-name-rules", what, spec.get("variant")))
+	with warnings.catch_warnings():
+		warnings.simplefilter("ignore")
+		if what == "fold-letters":
+			label, base = {"strasse": ("stra\u00dfe", "stra_e"), "long-s": ("ma\u017fs", "ma_s"), "fi": ("\ufb01n", "n"), "capital-sharp-s": ("STRA\u1e9eE", "stra_e"), "dotless-i": ("\u0131d", "d"), "plain": ("Stra Sse", "stra_sse")}[spec["variant"]]
+			t = Table([Vector(["a", "b", "a"], name="k"), Vector([1, 2, 3], name=label)])
+			for op in ("aggregate", "window"):
+				o = call(lambda: getattr(t, op)(over="k", sum_over=t.cols()[1]))
+				if o.ok and o.value.column_names()[-1] != f"{base}_sum":
+					chk.fail("outputs are named <sanitised column>_<function>", f"names/{op}/output-names/fold-letters", f"{spec!r}: label {label!r}: output named {o.value.column_names()[-1]!r}, the documented rule gives {base + '_sum'!r}")
+					return
+		elif what == "selection-rename-local":
+			t = Table({"a": [1, 2, 3], "b": [4, 5, 6], "c": [7, 8, 9]})
+			sel = call({"t[:, name]": lambda: t[:, "b"], "t[:, j]": lambda: t[:, 1], "t[name, :]": lambda: t["b", :], "t[0:3, name]": lambda: t[0:3, "b"], "t[:, (name,)]": lambda: t[:, ("b",)], "t[mask][name]": lambda: t[[True, True, True]]["b"]}[spec["variant"]])
+			if not sel.ok:
+				return
+			target = sel.value.cols()[0] if isinstance(sel.value, Table) else sel.value
+			if target.name != "b":
+				chk.fail("slicing keeps the source column's name", f"names/selection/name-lost/{spec['variant']}", f"{spec!r}: selection is named {target.name!r}")
+				return
+			call(setattr, target, "name", "renamed")
+			call(target.alias, "aliased") if target.name is None else None
+			if t.column_names() != ["a", "b", "c"]:
+				chk.fail("a selection is a result of its own: naming it does not rename the source", f"names/selection/rename-reaches-source/{spec['variant']}", f"{spec!r}: source names now {t.column_names()!r}")
+		elif what == "spelled-key-after-view-rename":
+			def build(names):
+				return Table([Vector([1, 1, 2], name=names[0]), Vector(["x", "y", "x"], name=names[1]), Vector([10, 20, 30], name=names[2])])
+			t = build(["qty", "Units", "price"])
+			if spec["variant"].startswith("touched"):
+				call(dir, t)
+			call(setattr, t.cols()[0], "name", "units")        # the first column's sanitised name now equals the accessor the second column had
+			fresh = build(["units", "Units", "price"])
+			for label, f in (("aggregate", lambda x: x.aggregate(over="UNITS", sum_over="price")), ("window", lambda x: x.window(over="UNITS", sum_over="price")), ("sort_by", lambda x: x.sort_by("UNITS")),
+					("join", lambda x: x.join(Table({"u": [1, 2], "z": [5, 6]}), "UNITS", "u", expect="many_to_one") if False else x.aggregate(over=["UNITS"], max_over="price"))):
+				a, b = call(f, t), call(f, fresh)
+				if a.ok != b.ok or (a.ok and (a.value.column_names() != b.value.column_names() or [list(c._underlying) for c in a.value.cols()] != [list(c._underlying) for c in b.value.cols()])):
+					chk.fail("a column asked for by name is the column the table holds under that name now", f"names/{label}/spelled-key-after-view-rename", f"{spec!r}: renamed table gives {short(a, 200)}, a table built with these names gives {short(b, 200)}")
+					return
+		elif what == "fillna-keeps-name":
+			v = {"int<-float": (Vector([1, None, 3], name="x"), 2.5), "int<-complex": (Vector([1, None], name="x"), 2j), "float<-complex": (Vector([1.5, None], name="x"), 1j), "date<-datetime": (Vector([date(2020, 1, 1), None], name="x"), datetime(2020, 1, 1, 5)),
+				"same-kind": (Vector([1, None], name="x"), 0), "column": (Table({"x": [1, None, 3]})["x"], 2.5)}[spec["variant"]]
+			o = call(v[0].fillna, v[1])
+			if o.ok and o.value.name != "x":
+				chk.fail("fills and promotion keep a vector's name", f"names/fillna/name-lost/{spec['variant']}", f"{spec!r}: the filled vector is named {o.value.name!r}")
 
-RUNNERS = {"str_subclass_labels": run_str_subclass_labels, "equal_label_rename": run_equal_label_rename, "chain": run_chain, "agg_names": run_agg_names, "label_names": run_label_names}
+
+RUNNERS = {"more_name_rules": run_more_name_rules, "str_subclass_labels": run_str_subclass_labels, "equal_label_rename": run_equal_label_rename, "chain": run_chain, "agg_names": run_agg_names, "label_names": run_label_names}
 RUNNERS["recompute"] = recompute.runner("C18")
 
 
@@ -583,6 +636,10 @@ def gen_agg_names_spec(rng):
 
 
 def run(chk):
+	for what, variants in (("fold-letters", ["strasse", "long-s", "fi", "capital-sharp-s", "dotless-i", "plain"]), ("selection-rename-local", ["t[:, name]", "t[:, j]", "t[name, :]", "t[0:3, name]", "t[:, (name,)]", "t[mask][name]"]),
+			("spelled-key-after-view-rename", ["untouched", "touched-first"]), ("fillna-keeps-name", ["int<-float", "int<-complex", "float<-complex", "date<-datetime", "same-kind", "column"])):
+		for variant in variants:
+			chk.case("more_name_rules", {"what": what, "variant": variant}, "more-name-rules")
 	for op in ("aggregate", "window"):
 		for fn in ("sum", "max", "count"):
 			for labels in (["enum-price"], ["tagged-amount"], ["enum-price", "enum-qty"], ["tagged-total", "enum-price"], ["tagged-amount", "tagged-total", "enum-qty"]):
